@@ -75,3 +75,10 @@ def open_vdi(files, opaque, p):
 
     parent = RawStream(opaque["parent"]) if p.get("has_parent") else None
     return VDI(files["img"], parent)
+
+
+@register("vhd")
+def open_vhd(files, opaque, p):
+    from dissect.hypervisor.disk.vhd import VHD
+
+    return VHD(files["img"])
